@@ -11,8 +11,10 @@ spec = {"argv": ["-r", name, "-s", sess, ...],      command line of pcfg_guesser
         "quit_after_pops": k | null,                 should_exit is set while the k-th pre-terminal is being generated
         "cap": max guesses (the run is abandoned beyond it)}
 
-Prints one line  @@RESULT@@<json>  with {"out": [guesses], "pops": [[pt, prob], ...], "error": str|null,
-"stray_stdout": text written to stdout by anything but print_guess}.
+Prints one line  @@RESULT@@<json>  with {"out": [guesses handed to print_guess, in order], "pops": [[pt, prob], ...],
+"error": str|null, "stray_stdout": text on stdout that is not one of those guesses, "lost_stdout": guesses handed to print_guess
+that never reached stdout by the time main() had returned and the exit handlers had run (print_guess itself is NOT replaced:
+the original runs and writes to the captured sys.stdout, so a buffer the program forgets to flush shows)}.
 The save file is written where main() puts it (beside the copy's pcfg_guesser.py), rulesets are read from
 <code_dir>/Rules - which is why this runs on a copy of the tree and never on /repo itself."""
 import io
@@ -40,10 +42,13 @@ def main():
     class Overflow(Exception):
         pass
 
+    orig_print_guess = PcfgGrammar.print_guess
+
     def print_guess(self, g):
         if self not in grammars:
             grammars.append(self)
         res["out"].append(g)
+        orig_print_guess(self, g)
         if qg is not None and len(res["out"]) == qg:
             self.should_exit = True
         if len(res["out"]) > cap:
@@ -90,7 +95,29 @@ def main():
             res["error"] = "SystemExit(%r)" % (e.code,)
         except Exception as e:      # noqa: BLE001 - the implementation raised
             res["error"] = "%s: %s" % (type(e).__name__, e)
-        stray = sys.stdout.getvalue()
+        try:
+            import atexit
+            atexit._run_exitfuncs()          # what a normal interpreter exit would still run (the driver leaves through os._exit)
+        except Exception:                    # noqa: BLE001
+            pass
+        written = sys.stdout.getvalue().split("\n")
+        if written and written[-1] == "":
+            written.pop()
+        # the guesses in order are a subsequence of the stdout lines; what is left over is stray output, what is missing was lost
+        strays, lost, j = [], [], 0
+        for g in res["out"]:
+            k = j
+            while k < len(written) and written[k] != g:
+                k += 1
+            if k == len(written):
+                lost.append(g)
+            else:
+                strays += written[j:k]
+                j = k + 1
+        strays += written[j:]
+        stray = "\n".join(strays) + ("\n" if strays else "")
+        res["lost_stdout"] = lost[:50]
+        res["lost_stdout_count"] = len(lost)
         res["stderr_tail"] = sys.stderr.getvalue()[-600:]
     finally:
         sys.argv, sys.stdout, sys.stderr = old_argv, old_out, old_err
